@@ -215,6 +215,11 @@ def G_varint(n: int) -> bytes:
     return b"\xfe" + n.to_bytes(4, "little")
 
 
+def witness_size(stack) -> int:
+    """GetSerializeSize(witness.stack)"""
+    return len(G_varint(len(stack))) + sum(len(G_varint(len(e))) + len(e) for e in stack)
+
+
 def lift_x(x: bytes):
     xi = int.from_bytes(x, "big")
     if xi >= ec.p:
@@ -570,7 +575,8 @@ def run_eval(ctx, spec):
         st = G.init_stack(rng)
         sc = G.program(rng, False, [G.N if len(x) <= 4 else G.A for x in st])
         fl = rng.choice(fsets)
-        lt, seq, ver = rng.choice([(0, 0xFFFFFFFF, 1), (0, 0xFFFFFFFF, 1), (100, 5, 2), (500000001, 0x400005, 2), (7, 0x80000001, 3)])
+        lt, seq, ver = rng.choice([(0, 0xFFFFFFFF, 1), (0, 0xFFFFFFFF, 1), (100, 5, 2), (500000001, 0x400005, 2), (7, 0x80000001, 3),
+                                   (rng.choice(G.LOCKTIMES), rng.choice(G.SEQUENCES), rng.choice(G.VERSIONS))])
         ln = f"eval {sv} {fl} {hx(sc)} {hexlist(st)} {lt} {seq} {ver} 0 deny"
         lines.append(ln)
         if rng.random() < 0.25:
@@ -585,6 +591,17 @@ def run_eval(ctx, spec):
         ctx.check("engine.invariants", {"script": sc.hex(), "stack": [x.hex() for x in st], "flags": "-", "segwit": False})
         if len(st) <= 1000:
             wit_lines.append(f"execwit tapscript - {hx(sc)} {hexlist(st)} 0 4294967295 1 100000 deny")
+    lt_flags = ["CHECKLOCKTIMEVERIFY,CHECKSEQUENCEVERIFY", "CHECKLOCKTIMEVERIFY,CHECKSEQUENCEVERIFY,MINIMALDATA"]
+    lts = G.locktime_programs(rng, full=ctx.tier == "thorough")
+    for k, (sc, lt, seq, ver) in enumerate(lts):
+        sv = ("base", "v0")[k % 2]
+        lines.append(f"eval {sv} {lt_flags[k % 7 == 0]} {hx(sc)} - {lt} {seq} {ver} 0 deny")
+        if k % 5 == 0:
+            wit_lines.append(f"execwit tapscript {lt_flags[0]} {hx(sc + b'\x75\x51')} - {lt} {seq} {ver} 1000 deny")
+    ctx.count("eval.limit-families", "locktime", len(lts))
+    for sc, w in G.budget_programs():
+        for fl in ("-", "DISCOURAGE_UPGRADABLE_PUBKEYTYPE"):
+            wit_lines.append(f"execwit tapscript {fl} {hx(sc)} - 0 4294967295 1 {w} deny")
     for _ in range(ctx.n(500, 12000)):
         st = G.init_stack(rng)
         sc = G.program(rng, True, [G.N if len(x) <= 4 else G.A for x in st])
